@@ -53,6 +53,8 @@ ASSUMPTIONS = [
     "every text file ends with a line terminator after its last row",
     "read(): the obspy_read_kwargs a recording receives may carry an extra 'byteorder' key (hvsrpy's SAC reader writes it into "
     "the caller's dict); all keys given by the caller must arrive unchanged; meta['file name(s)'] is counted, not judged",
+    "reader options given by the caller always name the obspy format of a miniSEED/SAC/GCF recording (obspy's auto-detection is "
+    "not under test: without 'format' it takes some GCF files for SAC and hvsrpy then cannot read them)",
     "truncated binary files are cut to fewer than 48 bytes (a miniSEED file cut at a record boundary is a valid shorter file)",
 ]
 NOT_REACHED = [
@@ -914,6 +916,7 @@ def fam_corrupted(ctx, rng):
 # --------------------------------------------------------------------------------------------------
 
 ROUTE_FORMATS = ["mseed-one-file", "mseed-three-files", "sac", "gcf", "saf", "minishark", "peer"]
+OBSPY_KINDS = [("mseed-one-file", "mseed-three-files"), ("sac",), ("gcf",)]
 
 
 def build_any(ctx, rng, d, which, n, tag):
@@ -960,6 +963,16 @@ def routing_discrepancies(events, wanted):
     return out
 
 
+def kwargs_type_rule_explains(kwargs_form, degrees_form, dg_arg, events, err):
+    """True when what was observed is exactly what 'broadcast degrees_from_north according to the TYPE OF
+    obspy_read_kwargs' produces (evidence for classifying the finding; the verdict does not depend on it)."""
+    if (kwargs_form == "list") == (degrees_form == "list"):
+        return False
+    if kwargs_form == "list":            # a scalar / None is zipped as if it were the per-recording iterable
+        return isinstance(err, TypeError) and not events
+    return bool(events) and all(isinstance(e["degrees"], (list, tuple)) and list(e["degrees"]) == list(dg_arg) for e in events)
+
+
 def fam_read(ctx, rng):
     import hvsrpy
     k = int(rng.integers(1, 5))
@@ -968,8 +981,13 @@ def fam_read(ctx, rng):
     CUR["fmt"] = "read()"
     with Scratch() as d:
         sets = []
+        pool = ROUTE_FORMATS
+        if kwargs_form == "dict":
+            # one dict for all recordings can name one obspy format only (auto-detection by obspy is not under test)
+            one = OBSPY_KINDS[int(rng.integers(0, len(OBSPY_KINDS)))]
+            pool = [f for f in ROUTE_FORMATS if f in one or f in ("saf", "minishark", "peer")]
         for i in range(k):
-            which = ROUTE_FORMATS[int(rng.integers(0, len(ROUTE_FORMATS)))]
+            which = pool[int(rng.integers(0, len(pool)))]
             fs_ = build_any(ctx, rng, d, which, int(rng.integers(10, 300)), tag=f"r{i}")
             if fs_ is None:
                 return
@@ -991,14 +1009,15 @@ def fam_read(ctx, rng):
         if kwargs_form == "none":
             kw_arg, kw_each = None, [None] * k
         elif kwargs_form == "dict":
-            fmts = {s["obspy_format"] for s in sets}
+            fmts = {s["obspy_format"] for s in sets} - {None}
             kw_arg = {"nearest_sample": bool(rng.random() < 0.5), "check_compression": bool(rng.random() < 0.5)}
-            if len(fmts) == 1 and None not in fmts and rng.random() < 0.5:
+            if fmts:
                 kw_arg["format"] = fmts.pop()
+            if rng.random() < 0.3:
+                del kw_arg["check_compression"]
             kw_each = [dict(kw_arg)] * k
         else:
-            with_format = bool(rng.random() < 0.7)
-            kw_arg = [options(i, with_format or sets[i]["obspy_format"] == "SAC") for i in range(k)]
+            kw_arg = [options(i, True) for i in range(k)]
             kw_each = [dict(o) for o in kw_arg]
             if rng.random() < 0.25:
                 kw_arg = tuple(kw_arg)
@@ -1036,7 +1055,8 @@ def fam_read(ctx, rng):
         ctx.check(not problems, "read-routing", "read() did not hand every recording its own degrees_from_north / reader options: "
                   + "; ".join(problems[:4]), problems=problems, exception=repr(err) if err is not None else None,
                   events=[{"files": [os.path.basename(f) for f in names_list(e["fnames"])], "kwargs": e["kwargs"], "degrees": e["degrees"]}
-                          for e in events], expected_degrees=dg_each, expected_kwargs=kw_each, **info)
+                          for e in events], expected_degrees=dg_each, expected_kwargs=kw_each,
+                  explained_by_kwargs_type_rule=kwargs_type_rule_explains(kwargs_form, degrees_form, dg_arg, events, err), **info)
         if out is not None:
             ok = isinstance(out, list) and len(out) == k
             ctx.check(ok, "read-results", f"read() returned {type(out).__name__} of {len(out) if hasattr(out, '__len__') else '?'} for {k} recordings", **info)
